@@ -47,6 +47,26 @@ def rdur(rng: random.Random, dmax=300) -> int:
     return rng.randint(1, min(dmax, 40))
 
 
+def rawdur(rng: random.Random, d: int, p=0.3):
+    """the same duration in the int-castable forms a user may pass: int,
+    integral float, non-integer float (rounded down with a warning), numpy
+    int / float scalars"""
+    if rng.random() >= p:
+        return d
+    c = rng.randint(0, 5)
+    if c == 0:
+        return float(d)
+    if c == 1:
+        return d + rng.choice([0.7, 0.5, 0.25, 0.999, 0.0001]) if d >= 0 else d - 0.5
+    if c == 2:
+        return ["i64", d]
+    if c == 3:
+        return ["f64", d + rng.choice([0.0, 0.3, 0.9])] if d >= 0 else ["f64", float(d)]
+    if c == 4:
+        return d + rng.random() * 0.98 + 0.01 if d >= 0 else d - rng.random() * 0.9
+    return ["f64", float(d)]
+
+
 def gen_interp(rng: random.Random, d=None, malformed=False):
     n = rng.choice([2, 2, 3, 3, 4, 5, 6])
     if d is None:
@@ -77,7 +97,7 @@ def gen_interp(rng: random.Random, d=None, malformed=False):
         else:
             vals = vals[:1]
             times = None
-    return ["interp", d, vals, times]
+    return ["interp", rawdur(rng, d, 0.4), vals, times]
 
 
 def gen_wf(rng: random.Random, depth=0, d=None, classes=None, malformed=False):
@@ -88,11 +108,11 @@ def gen_wf(rng: random.Random, depth=0, d=None, classes=None, malformed=False):
     if malformed and k not in ("comp", "interp", "kaiser", "custom"):
         dd = rng.choice([0, -1, -5])
     if k == "const":
-        return ["const", dd, rval(rng)]
+        return ["const", rawdur(rng, dd), rval(rng)]
     if k == "ramp":
         a = rval(rng)
         b = a if rng.random() < 0.1 else rval(rng)
-        return ["ramp", dd, a, b]
+        return ["ramp", rawdur(rng, dd), a, b]
     if k == "custom":
         if malformed:
             return ["custom", []]
@@ -115,12 +135,12 @@ def gen_wf(rng: random.Random, depth=0, d=None, classes=None, malformed=False):
         sub = [c for c in classes if c != "interp"] or classes
         return ["comp", [gen_wf(rng, depth + 1, d=p, classes=sub) for p in parts]]
     if k == "blackman":
-        return ["blackman", dd, rval(rng, allow_zero=False)]
+        return ["blackman", rawdur(rng, dd), rval(rng, allow_zero=False)]
     if k == "kaiser":
         beta = rng.choice([14.0, 14.0, 0.0, 1.0, 5.5, 8.6, 20.0])
         if malformed:
             return ["kaiser", dd, rval(rng, allow_zero=False), -1.0] if rng.random() < 0.6 else ["kaiser", 0, 1.0, 14.0]
-        return ["kaiser", dd, rval(rng, allow_zero=False), beta]
+        return ["kaiser", rawdur(rng, dd), rval(rng, allow_zero=False), beta]
     return gen_interp(rng, d=d, malformed=malformed)
 
 
@@ -150,7 +170,7 @@ def wdur(W) -> int:
         return len(W[1])
     if k == "comp":
         return sum(wdur(x) for x in W[1])
-    return W[1]
+    return I.dur_int(W[1])
 
 
 def gen_ops(rng: random.Random, W):
@@ -168,7 +188,7 @@ def gen_ops(rng: random.Random, W):
     ops.append(["mul", rng.choice([2.0, -3.0, 0.5, 0.0, 1e-3, -1.0, 1.0 / 3.0, rng.uniform(-5, 5)])])
     ops.append(["neg"])
     ops.append(["div", rng.choice([2.0, -4.0, 0.0, -0.0, 3.0, 0.1, rng.uniform(-5, 5)])])
-    ops.append(["chdur", rng.choice([1, 2, 3, 3, 4, 10, 0, -2, d, d + 1, rng.randint(1, 150)])])
+    ops.append(["chdur", rawdur(rng, rng.choice([1, 2, 3, 3, 4, 10, 0, -2, d, d + 1, rng.randint(1, 150)]), 0.4)])
     c = rng.random()
     if c < 0.25:
         other = W
@@ -188,9 +208,9 @@ def gen_ops(rng: random.Random, W):
 def gen_amp(rng: random.Random, d):
     c = rng.random()
     if c < 0.3:
-        return ["const", d, abs(rval(rng))]
+        return ["const", rawdur(rng, d), abs(rval(rng))]
     if c < 0.5:
-        return ["ramp", d, abs(rval(rng)), abs(rval(rng))]
+        return ["ramp", rawdur(rng, d), abs(rval(rng)), abs(rval(rng))]
     if c < 0.65:
         return ["blackman", d, abs(rval(rng, allow_zero=False))]
     if c < 0.75:
@@ -214,6 +234,22 @@ def rphase(rng: random.Random, tiny_neg=True) -> float:
     if c < 0.8:
         return rng.uniform(-20, 20)
     return rng.randint(-640, 640) / 64.0
+
+
+def exact_blackman_peak(n: int, area: float) -> float:
+    """the value an n-ns Blackman waveform of that area scales its window by
+    (its peak for odd n): area / sum(clipped window) * 1e3, as a double"""
+    w = np.clip(np.blackman(n), 0, np.inf)
+    if n == 2:
+        return area / 0.42 * 1e3
+    return float(area / np.sum(w) * 1e3)
+
+
+def exact_kaiser_peak(n: int, area: float, beta: float) -> float:
+    """peak of an n-ns Kaiser waveform of that area as a double:
+    max(window) * (1000 * area / sum(window))"""
+    w = np.kaiser(n, beta)
+    return float(np.max(w) * (1000 * area / np.sum(w)))
 
 
 class C16(PropCheck):
@@ -254,21 +290,37 @@ class C16(PropCheck):
             return dict(kind="arb", amp=amp, phase_wf=ph, post=rphase(rng, tiny_neg=False))
         if c < 0.9:
             area = rpos(rng)
-            # durations between ~3 and ~400 ns
-            dur = rng.choice([3, 4, 5, 6, 8, 11, 20, 33, 50, 100, 101, 150, 250, 400]) * rng.uniform(0.9, 1.1)
-            mv = area / (0.42 * dur) * 1e3
-            if rng.random() < 0.2:
-                mv = float(round(mv, 1)) or 1.0
             s = rng.choice([1, 1, -1])
             s2 = s if rng.random() < 0.92 else -s
+            h = rng.random()
+            if h < 0.35:
+                # max_val that an N-ns waveform reaches EXACTLY (bit for bit), or
+                # misses by a hair either way: N must be returned / must not be
+                n = rng.choice([1, 3, 4, 5, 6, 7, 8, 9, 10, 16, 17, 33, 50, 51, 100, 101, 128, 129, 200, 201, 257, 400, 401])
+                mv = exact_blackman_peak(n, area) * rng.choice([1.0, 1.0, 1.0, 1 + 1e-9, 1 - 1e-9])
+            elif h < 0.5:
+                # round numbers: area = 0.42 * max_val * (N - 1) / 1000
+                mv = rng.choice([1.0, 2.0, 5.0, 10.0, 4.0, 0.5, 20.0])
+                n1 = rng.choice([10, 20, 50, 100, 200, 250, 400, 500, 1000])
+                area = round(0.42 * mv * n1 / 1000, 6)
+            else:
+                # durations between ~3 and ~400 ns
+                dur = rng.choice([3, 4, 5, 6, 8, 11, 20, 33, 50, 100, 101, 150, 250, 400]) * rng.uniform(0.9, 1.1)
+                mv = area / (0.42 * dur) * 1e3
+                if rng.random() < 0.2:
+                    mv = float(round(mv, 1)) or 1.0
             return dict(kind="bmv", max_val=float(s2 * mv), area=float(s * area))
         area = rpos(rng)
         beta = rng.choice([14.0, 14.0, 14.0, 0.0, 2.0, 5.5, 8.6, 20.0])
-        dur = rng.choice([1, 2, 3, 5, 8, 10, 11, 12, 14, 16, 20, 33, 50, 100, 150, 250, 400]) * rng.uniform(0.9, 1.1)
-        avg = float(np.sum(np.kaiser(100, beta))) / 100
-        mv = area / (avg * dur) * 1e3
         s = rng.choice([1, 1, -1])
         s2 = s if rng.random() < 0.92 else -s
+        if rng.random() < 0.4:
+            n = rng.choice([1, 2, 3, 4, 5, 7, 8, 10, 11, 12, 14, 15, 16, 17, 20, 33, 50, 51, 99, 100, 101, 128, 150, 200, 201, 300, 400])
+            mv = exact_kaiser_peak(n, area, beta) * rng.choice([1.0, 1.0, 1.0, 1 + 1e-9, 1 - 1e-9])
+        else:
+            dur = rng.choice([1, 2, 3, 5, 8, 10, 11, 12, 14, 16, 20, 33, 50, 100, 150, 250, 400]) * rng.uniform(0.9, 1.1)
+            avg = float(np.sum(np.kaiser(100, beta))) / 100
+            mv = area / (avg * dur) * 1e3
         return dict(kind="kmv", max_val=float(s2 * mv), area=float(s * area), beta=beta)
 
     # -------------------------------------------------------- implementation
